@@ -260,7 +260,89 @@ def check_codec_exception_texts(ctx):
                     ctx.check(not bad, 'C20.R4', '%s|raise formats self.%s' % (q, f), site, 'self.%s may be %s: none renders instance data' % (f, sorted(c[1] for c in cands) or 'of unknown class (caller supplied)'),
                               'the exception message formats self.%s, which can be %s: the text (logged by the session at ERROR level) then contains the secret content' % (f, bad))
     ctx.count('codec_exception_sites_formatting_secret_fields', n_sites, 1)
+    check_decoders_do_not_quote_value_bytes(ctx)
 
+
+
+def check_decoders_do_not_quote_value_bytes(ctx):
+    """C20.R7: the decoders of the primitives that carry passwords and key material never put the value bytes into an exception."""
+    from ..inline import flat_methods
+    from ..astutil import params as _params
+    PRIM_ = 'kmip/core/primitives.py'
+    ctx.rule('C20.R7', 'in the read / read_value methods of TextString, ByteString and BigInteger (passwords, key material and key parameters travel in them) no raise builds its exception from the value bytes: nothing read from the stream with a size derived from self.length (or inside a loop over range(self.length)), nothing computed from it and not self.value flows into the arguments of the exception, except under len() / type(). The session logs the text of a decode failure with logger.exception at ERROR level, so a password that fails to decode would be written to the log')
+    t = ctx.src.tree(PRIM_)
+    n = 0
+    for cname in ('TextString', 'ByteString', 'BigInteger'):
+        c = get_class(t, cname)
+        fm = flat_methods(c)[0]
+        for mname in ('read', 'read_value'):
+            fn = fm.get(mname)
+            if fn is None:
+                continue
+            ps = _params(fn)
+            stream = ps[0] if ps else None
+            tainted = set()
+
+            def value_read(e, in_value_loop):
+                for x in ast.walk(e):
+                    if isinstance(x, ast.Call) and isinstance(x.func, ast.Attribute) and x.func.attr in ('read', 'peek') and isinstance(x.func.value, ast.Name) and x.func.value.id == stream:
+                        if in_value_loop or any('self.length' in U(a) or 'length' == U(a) for a in x.args) or not x.args:
+                            return True
+                return False
+
+            def mentions(e):
+                skip = set()
+                for x in ast.walk(e):
+                    if isinstance(x, ast.Call) and (call_name(x) or '') in ('len', 'type', 'isinstance', 'id'):
+                        for y in ast.walk(x):
+                            skip.add(id(y))
+                for x in ast.walk(e):
+                    if id(x) in skip:
+                        continue
+                    if isinstance(x, ast.Name) and x.id in tainted:
+                        return x.id
+                    if is_self_attr(x, 'value') and isinstance(x.ctx, ast.Load):
+                        return 'self.value'
+                return None
+
+            def loops_of(x):
+                out = []
+                p_ = getattr(x, '_parent', None)
+                while p_ is not None and p_ is not fn:
+                    if isinstance(p_, (ast.For, ast.While)):
+                        out.append(p_)
+                    p_ = getattr(p_, '_parent', None)
+                return out
+            changed = True
+            while changed:
+                changed = False
+                for st in walk_local(fn):
+                    tgts, val = None, None
+                    if isinstance(st, ast.Assign):
+                        tgts, val = st.targets, st.value
+                    elif isinstance(st, ast.AugAssign):
+                        tgts, val = [st.target], st.value
+                    elif isinstance(st, ast.For):
+                        tgts, val = [st.target], st.iter
+                    if val is None:
+                        continue
+                    in_loop = any(isinstance(l, ast.For) and 'self.length' in U(l.iter) for l in loops_of(st))
+                    if value_read(val, in_loop) or mentions(val):
+                        for tg in tgts:
+                            for x in ([tg] if isinstance(tg, ast.Name) else (tg.elts if isinstance(tg, (ast.Tuple, ast.List)) else [])):
+                                if isinstance(x, ast.Name) and x.id not in tainted:
+                                    tainted.add(x.id)
+                                    changed = True
+            for r in [x for x in walk_local(fn) if isinstance(x, ast.Raise) and x.exc is not None]:
+                n += 1
+                args = (list(r.exc.args) + [k.value for k in r.exc.keywords]) if isinstance(r.exc, ast.Call) else [r.exc]
+                hit = None
+                for a in args:
+                    in_loop = any(isinstance(l, ast.For) and 'self.length' in U(l.iter) for l in loops_of(r))
+                    hit = hit or mentions(a) or ('the stream' if value_read(a, in_loop) else None)
+                ctx.check(hit is None, 'C20.R7', '%s.%s|raise quotes the value (%s)' % (cname, mname, hit), '%s:%s %s.%s' % (PRIM_, r.lineno, cname, mname), 'the exception is built without the value bytes',
+                          'the exception raised here is built from %s, which holds (part of) the value bytes just read: a password or key that fails to decode is quoted in the exception text, and the session logs that text at ERROR level' % hit)
+    ctx.count('raises_in_secret_bearing_decoders', n, 2)
 
 def run(ctx):
     src = ctx.src
